@@ -24,6 +24,11 @@ type tokPerson struct {
 	surname []string
 	place   string
 	year    int
+	// directPlace: the record carries "1 PLAC <place>" itself
+	directPlace bool
+	// variantOf: the events use a different spelling of this dead person's
+	// place (same page key)
+	variantOf string
 }
 
 func newTok(r *rand.Rand, n *int) string {
@@ -105,6 +110,21 @@ func genLivingCase(prop, tier string, r *rand.Rand) *Case {
 			tp.year = ty - 5 - r.IntN(76)
 			tp.p.Events = append(tp.p.Events, Event{Tag: "BIRT", Date: exactDate(tp.year), Place: tp.place})
 		case 5: // living: no date at all
+			if r.IntN(3) == 0 {
+				// living by a birth date RANGE: it starts more than 100 years
+				// ago but its midpoint (which is what counts) is 85-95 years ago
+				tp.role = "living-by-range-midpoint"
+				tp.living = true
+				mid := ty - 85 - r.IntN(11)
+				half := 20 + r.IntN(10)
+				tp.year = mid
+				tp.p.Events = append(tp.p.Events, Event{Tag: pick(r, []string{"BIRT", "BAPM"}),
+					Date: fmt.Sprintf("%s %d and %d", pick(r, []string{"Between", "Bet.", "From"}), mid-half, mid+half), Place: tp.place})
+				if strings.HasPrefix(tp.p.Events[len(tp.p.Events)-1].Date, "From") {
+					tp.p.Events[len(tp.p.Events)-1].Date = fmt.Sprintf("From %d to %d", mid-half, mid+half)
+				}
+				break
+			}
 			tp.role = "living-no-dates"
 			tp.living = true
 		case 6: // living with a burial but no death
@@ -124,6 +144,11 @@ func genLivingCase(prop, tier string, r *rand.Rand) *Case {
 			tp.year = ty - 20 - r.IntN(60)
 			tp.p.Events = append(tp.p.Events, Event{Tag: "BIRT", Date: exactDate(tp.year)},
 				Event{Tag: "RESI", Date: exactDate(tp.year + 10), Place: tp.place})
+		}
+		// a place directly under the individual
+		if r.IntN(6) == 0 {
+			tp.p.Lines = append(tp.p.Lines, "1 PLAC "+tp.place)
+			tp.directPlace = true
 		}
 		// an attribute with its own date and place
 		if r.IntN(4) == 0 {
@@ -155,13 +180,29 @@ func genLivingCase(prop, tier string, r *rand.Rand) *Case {
 			tp.p.Names[0] = tp.given[0] + " /" + tp.surname[0] + "/"
 			tp.role += "+shared-surname"
 		} else if len(tp.p.Events) > 0 && d.place != "" {
+			pl := d.place
+			if r.IntN(2) == 0 {
+				// the same place in another spelling (same page key): the
+				// spelling is the living person's data
+				pl = strings.ToUpper(d.place)
+				tp.variantOf = d.place
+				tp.role += "+variant-spelling-of-shared-place"
+			} else {
+				tp.role += "+shared-place"
+			}
 			for k := range tp.p.Events {
 				if tp.p.Events[k].Place != "" {
-					tp.p.Events[k].Place = d.place
+					tp.p.Events[k].Place = pl
 				}
 			}
-			tp.place = d.place
-			tp.role += "+shared-place"
+			if tp.directPlace {
+				for k, l := range tp.p.Lines {
+					if strings.HasPrefix(l, "1 PLAC ") {
+						tp.p.Lines[k] = "1 PLAC " + pl
+					}
+				}
+			}
+			tp.place = pl
 		}
 	}
 	g := &Graph{Head: true, Trailer: true}
@@ -214,12 +255,38 @@ func genLivingCase(prop, tier string, r *rand.Rand) *Case {
 				p2.Names[k] = strings.ReplaceAll(p2.Names[k], old, repl[old])
 			}
 		}
+		// a name that a living person shares with a dead one is the living
+		// person's data all the same: in D' the living person gets another
+		// one, the dead person keeps it
+		for _, tok := range append(append([]string(nil), tp.given...), tp.surname...) {
+			if private[tok] {
+				continue
+			}
+			nw := newTok(r, &nt)
+			for k := range p2.Names {
+				p2.Names[k] = strings.ReplaceAll(p2.Names[k], tok, nw)
+			}
+		}
+		if tp.variantOf != "" {
+			// another spelling with the same page key
+			alt := strings.ReplaceAll(strings.ToLower(tp.variantOf), ",", ";")
+			for k := range p2.Events {
+				if p2.Events[k].Place != "" {
+					p2.Events[k].Place = alt
+				}
+			}
+			for k, l := range p2.Lines {
+				if strings.HasPrefix(l, "1 PLAC ") {
+					p2.Lines[k] = "1 PLAC " + alt
+				}
+			}
+		}
 		for k := range p2.Events {
 			if p2.Events[k].Date != "" {
 				// another date that keeps the person clearly living
 				p2.Events[k].Date = exactDate(ty - 5 - r.IntN(76))
 			}
-			if p2.Events[k].Place != "" {
+			if p2.Events[k].Place != "" && tp.variantOf == "" {
 				shared := false
 				for _, q := range people {
 					if !q.living && q.place == p2.Events[k].Place {
@@ -232,6 +299,24 @@ func genLivingCase(prop, tier string, r *rand.Rand) *Case {
 						placeRepl[old] = newTok(r, &nt) + "ville, " + pick(r, []string{"England", "Australia", "Narnia"})
 					}
 					p2.Events[k].Place = placeRepl[old]
+				}
+			}
+		}
+		for k, l := range p2.Lines {
+			if strings.HasPrefix(l, "1 PLAC ") {
+				if nw, ok := placeRepl[strings.TrimPrefix(l, "1 PLAC ")]; ok {
+					p2.Lines[k] = "1 PLAC " + nw
+				} else if tp.variantOf == "" {
+					shared := false
+					for _, q := range people {
+						if !q.living && q.place == strings.TrimPrefix(l, "1 PLAC ") {
+							shared = true
+						}
+					}
+					if !shared {
+						placeRepl[strings.TrimPrefix(l, "1 PLAC ")] = newTok(r, &nt) + "ville, Narnia"
+						p2.Lines[k] = "1 PLAC " + placeRepl[strings.TrimPrefix(l, "1 PLAC ")]
+					}
 				}
 			}
 		}
